@@ -102,6 +102,19 @@ CHECKS["C01"] = dict(
         "operator pending the 2-D loop machinery.",
    ref="§6 C01")
 
+CHECKS["C19"] = dict(
+   technique="contract-based deductive verification: fvm1d.rhs executed symbolically twice (with / without sources) from "
+             "the ast; the nozzle constructor executed with CPython closure and aliasing semantics; abstract user functions "
+             "with ghost call log; z3",
+   text="Proof for all admissible fields, all strictly increasing meshes, symbolic ncell, every subset of equations carrying a "
+        "source (all 2^neq patterns and None) for shallow water, Euler 1-D and the nozzle: no exception, each source called "
+        "exactly once with (cell centres, conservative data), operator with sources = operator without + source_k on "
+        "equation k; nozzle: geomterm and the three area sources equal -(1/A)(dA/dx) x (mass, momentum-convective, enthalpy "
+        "flux) for an abstract section law, zero for a constant section, user sources added to the built-in ones.",
+   note=TB + "; user sources / section law abstract; numflux through its contract (deterministic pointwise function); "
+        "2-D add_source shares the code path (fvm2dcart.add_source is textually the same loop), checked with the 2-D machinery.",
+   ref="§6 C19")
+
 NA = {
  "C04": "convergence of a solve at the design order under mesh refinement is a limit statement over a family of meshes "
         "(and an empirical one for Riemann problems; the reference solutions wrap the external aerokit): no pre/postcondition "
